@@ -10,7 +10,9 @@ Regenerates lean/Pixman/Gen/OpacityBlock.lean from pixman/pixman.c: the part of
   * the mask elision (`mask && !(mask->common.flags & FAST_PATH_IS_OPAQUE)` ... else
     `PIXMAN_null`, `FAST_PATH_IS_OPAQUE | FAST_PATH_NO_ALPHA_MAP`), the call of optimize_operator and
     `info.mask_image = (mask_format == PIXMAN_null) ? NULL : mask` are compared with the expected
-    text (the hand-written `Model/Opacity.lean` mirrors exactly that text).
+    text (the hand-written `Model/Opacity.lean` mirrors exactly that text),
+  * the body of `bilinear_interpolation_float` (pixman-inlines.h) is compared with the expected text and its
+    LERP_CHANNEL macro emitted as `lerpChannel` over Rat.
 Fails closed (non-zero exit) on anything it does not recognise."""
 import re, sys
 from pathlib import Path
@@ -97,6 +99,16 @@ def main():
             fail("pixman_image_composite32: expected text not found (or out of order): " + e[:70])
         last = i
 
+    # ---- bilinear_interpolation_float (pixman-inlines.h): the per-channel macro, translated as written
+    inl = strip_comments((repo / "pixman" / "pixman-inlines.h").read_text())
+    bf = re.search(r"bilinear_interpolation_float\s*\(argb_t tl, argb_t tr,\s*argb_t bl, argb_t br,\s*float distx, float disty\)\s*\{(.*?)\n\}", inl, flags=re.S)
+    if not bf:
+        fail("bilinear_interpolation_float not found")
+    want = ("argb_tr;#defineLERP_CHANNEL(c)\\do\\{\\floattop=tl.c+distx*(tr.c-tl.c);\\floatbot=bl.c+distx*(br.c-bl.c);\\\\"
+            "r.c=top+disty*(bot-top);\\}while(0)LERP_CHANNEL(a);LERP_CHANNEL(r);LERP_CHANNEL(g);LERP_CHANNEL(b);#undefLERP_CHANNELreturnr;")
+    if squash(bf.group(1)) != want:
+        fail("bilinear_interpolation_float body changed:\n" + squash(bf.group(1)))
+
     L = ["/- REGENERATED on every run by tools/gen_opacity.py from pixman/pixman.c",
          "(`pixman_image_composite32`) — never edit. -/",
          "import Pixman.Gen.ImageFlags",
@@ -111,7 +123,13 @@ def main():
     for terms, target in stmts:
         c = " || ".join(f"(({w}_flags &&& {mname}) == {mname})" for w, mname in terms)
         L.append(f"  let {target}_flags := if {c} then {target}_flags ||| FAST_PATH_IS_OPAQUE else {target}_flags")
-    L += ["  (src_flags, mask_flags, dest_flags)", "", "end Pixman.Gen.OpacityBlock"]
+    L += ["  (src_flags, mask_flags, dest_flags)", "",
+          "/-- `LERP_CHANNEL (c)` of `bilinear_interpolation_float` (pixman-inlines.h), over `Rat` -/",
+          "def lerpChannel (tl tr bl br distx disty : Rat) : Rat :=",
+          "  let top := tl + distx * (tr - tl)",
+          "  let bot := bl + distx * (br - bl)",
+          "  top + disty * (bot - top)",
+          "", "end Pixman.Gen.OpacityBlock"]
     write_if_changed(out / "OpacityBlock.lean", "\n".join(L) + "\n")
 
 
